@@ -148,6 +148,10 @@ func runC12(p *P, r *R) {
 	c12Race(p, r)
 	c12Identity(p, r)
 	c12Duality(p, r)
+	// R12.6 wrong-phase / wrong-type messages end the establishment with an error on this end (shared with C13 R13.1)
+	borrow(p, r, "C13", runC13, map[string]string{"R13.1": "R12.6"}, func(o Ob) bool {
+		return constructHas(o, "testing the header's message type", "validated before it is returned")
+	})
 }
 
 // R12.2
